@@ -117,6 +117,20 @@ def history(rng, tier):
         live_roots = [r_ for r_ in roots if r_.alive]
         if live_roots and rng.random() < 0.35:
             v = rng.choice(live_roots)
+        # second routes to the victim: handles obtained THROUGH holders (tag / multi-tag references, group members, attached
+        # sources, metadata), fetched before the delete and asked for their validity afterwards
+        aliases = []
+        def alias(rel, holder):
+            sl = '$al%d' % (len(w.lines))
+            w.emit('getlinkh %s %s %s idof %s' % (sl, rel, holder.slot, v.slot) if rel != 'meta' else 'getlinkh %s meta %s idx 0' % (sl, holder.slot))
+            aliases.append(sl)
+        if v.kind == 'A':
+            for t in w.alive(['T', 'M'], block=v.block)[:3]: alias('ref', t)
+            for g in w.alive('G', block=v.block)[:2]: alias('mA', g)
+        elif v.kind in ('T', 'M', 'D'):
+            for g in w.alive('G', block=v.block)[:2]: alias(REL_OF[v.kind], g)
+        elif v.kind == 'O':
+            for h in w.alive(['A', 'T', 'G'], block=v.block)[:3]: alias('src', h)
         w.emit('dump')
         how = rng.choice(['name', 'handle', 'idof'])
         if how == 'idof':
@@ -126,6 +140,8 @@ def history(rng, tier):
             w.delete(v, how)
         w.emit('dump')
         w.emit('valid %s deleted' % v.slot)
+        for sl in aliases:
+            w.emit('valid %s deleted' % sl)
     return w.lines
 
 def cases(tier, seed, rng):
